@@ -106,6 +106,11 @@ def short(n, depth=0):
         return "throw %s" % short(n.get("e"))
     if k == "stdinitlist":
         return short(n.get("e"))
+    if k == "inlined":
+        rets = [short(x.get("e")) for x in walk(n.get("body")) if x.get("k") == "cret" and x.get("e") is not None]
+        return "%s{%s}" % (n.get("name"), " | ".join(rets)[:200])
+    if k == "cret":
+        return "return " + short(n.get("e"))
     return "<%s>" % k
 
 
@@ -132,6 +137,14 @@ class Facts:
                     continue
                 self.functions[key] = fn
                 self.by_q.setdefault(fn["q"], []).append(fn)
+                if fn.get("templated") and fn.get("body") is not None:
+                    # a member call on a dependent operand (`v.push_back(f(x))` in a template pattern) has no resolved
+                    # callee; give it the shape of a member call so that rules reading names and receivers see it
+                    for c in walk(fn["body"]):
+                        ce = c.get("callee")
+                        if c.get("k") == "call" and c.get("ck") == "indirect" and isinstance(ce, dict) and \
+                                ce.get("k") == "member" and ce.get("dep"):
+                            c["ck"], c["name"], c["recv"], c["dep"] = "member", ce.get("name"), ce.get("base"), True
             for r in d["records"]:
                 if not r.get("templated") or r["q"] not in self.records:
                     self.records.setdefault(r["q"], r)
@@ -140,6 +153,8 @@ class Facts:
             for g in d["globals"]:
                 g["_unit"] = f[:-5]
                 self.globals.setdefault(g["q"], []).append(g)
+        global CURRENT
+        CURRENT = self
         self.n_units = len(self.units)
         self.n_functions = len(self.functions)
 
@@ -216,3 +231,171 @@ class Facts:
                 if m["name"] == name and (nparams is None or m["nparams"] == nparams):
                     return c, m
         return None, None
+
+
+# ---------------------------------------------------------------------------------------------- normalisation
+CURRENT = None      # the Facts object of this run (set by Facts.__init__), for rule helpers that only get a function
+
+
+def inline_stmt_calls(fn, F, depth=0):
+    """A copy of function facts `fn` in which every *expression statement* that is a call of
+         - a lambda object declared in the same function (`const auto check = [&](..) {..}; check(a, b);`), or
+         - a file-local free function with a body in the same source file
+    is replaced by the callee's body with the parameters substituted by the argument expressions.  Rules that match
+    statement shapes (an error-reporting `if`, a call that must dominate another) then see through such helpers.
+    A callee that contains `return` with a value, or recursion, is left alone."""
+    import copy
+    body = fn.get("body")
+    if body is None:
+        return fn
+    lambdas = {}
+    for d in walk(body):
+        if d.get("k") == "decl":
+            for v in d.get("vars", []):
+                init = v.get("init")
+                while isinstance(init, dict) and init.get("k") == "cast":
+                    init = init["e"]
+                if isinstance(init, dict) and init.get("k") == "lambda" and init.get("params") is not None:
+                    lambdas[v.get("id")] = init
+
+    def subst(n, env):
+        if isinstance(n, list):
+            return [subst(x, env) for x in n]
+        if not isinstance(n, dict):
+            return n
+        if n.get("k") == "ref" and n.get("dk") == "param" and n.get("name") in env:
+            return env[n["name"]]
+        return {k: subst(v, env) if isinstance(v, (dict, list)) else v for k, v in n.items()}
+
+    def callee_of(c):
+        if c.get("k") != "call":
+            return None
+        if c.get("ck") == "op" and c.get("op") == "()" and (c.get("recv") or {}).get("k") == "ref":
+            lam = lambdas.get(c["recv"].get("id"))
+            if lam is not None:
+                return [p["name"] for p in lam["params"]], lam["body"]
+        if c.get("ck") in ("free", "static") and c.get("fn") and depth < 2:
+            for t in F.fns(c["fn"]):
+                if t.get("body") is not None and t.get("file") == fn.get("file") and t["q"] != fn["q"] and \
+                        len(t["params"]) == len(c.get("args", [])) and t.get("static"):
+                    return [p["name"] for p in t["params"]], t["body"]
+        return None
+
+    def rec(n):
+        if isinstance(n, list):
+            out = []
+            for x in n:
+                r = rec(x)
+                out.append(r)
+            return out
+        if not isinstance(n, dict):
+            return n
+        if n.get("k") == "call":
+            ce = callee_of(n)
+            if ce is not None:
+                params, cbody = ce
+                if not any(x.get("k") == "return" and x.get("e") is not None for x in walk(cbody)):
+                    env = dict(zip(params, n.get("args", [])))
+                    return {"k": "block", "l": n.get("l"), "inlined_from": short(n)[:40],
+                            "s": rec(subst(copy.deepcopy(cbody), env)).get("s", [])}
+        return {k: rec(v) if isinstance(v, (dict, list)) and k != "params" else v for k, v in n.items()}
+
+    def stmts(n):
+        """rewrite only statement positions"""
+        if isinstance(n, list):
+            return [stmts(x) for x in n]
+        if not isinstance(n, dict):
+            return n
+        k = n.get("k")
+        if k == "call":
+            return rec(n)
+        if k == "block":
+            return dict(n, s=[stmts(x) for x in n.get("s", [])])
+        if k == "if":
+            return dict(n, then=stmts(n.get("then")), **({"else": stmts(n["else"])} if n.get("else") is not None else {}))
+        if k in ("for", "while", "do", "rangefor", "switch"):
+            return dict(n, body=stmts(n.get("body")))
+        if k in ("case", "default", "attributed", "label"):
+            return dict(n, s=stmts(n.get("s")))
+        if k == "try":
+            return dict(n, body=stmts(n.get("body")))
+        return n
+    new = dict(fn)
+    new["body"] = stmts(body)
+    return new
+
+
+def inline_tail_delegate(fn, F, depth=0):
+    """A copy of `fn` whose final `return helper(args...)` - helper a function (or member-function template pattern) of
+    the analysed tree with a body - is replaced by the helper's body: parameters are substituted by the argument
+    expressions, `this` by the receiver, and a call through a parameter bound to a single-`return` lambda by that
+    lambda's result expression.  Functions that only forward to a shared worker (`clone()` ->
+    `data->clone_with(identity, identity)`) are then judged by what the worker does with their arguments.
+    Returns `fn` unchanged when the tail is not such a delegation."""
+    import copy
+    body = fn.get("body")
+    if body is None or depth > 2:
+        return fn
+    ss = body.get("s", [])
+    if not ss or ss[-1].get("k") != "return" or ss[-1].get("e") is None:
+        return fn
+    call = ss[-1]["e"]
+    while call.get("k") in ("cast", "paren") or (call.get("k") == "construct" and len(call.get("args", [])) == 1 and
+                                                   call.get("copy")):
+        call = call["e"] if call.get("k") != "construct" else call["args"][0]
+    if call.get("k") != "call" or not call.get("fn") or call.get("ck") == "op":
+        return fn
+    pre = ss[:-1]
+    if any(s.get("k") != "decl" for s in pre):
+        return fn
+    lambdas = {}
+    for d in pre:
+        for v in d.get("vars", []):
+            init = v.get("init")
+            while isinstance(init, dict) and init.get("k") == "cast":
+                init = init["e"]
+            if isinstance(init, dict) and init.get("k") == "lambda":
+                lambdas[v.get("id")] = init
+    cands = [t for t in F.fns(call["fn"]) if t.get("body") is not None and t["q"] != fn["q"] and
+             len(t["params"]) == len(call.get("args", [])) and not t.get("file", "").startswith("/usr")]
+    if len(cands) != 1:
+        return fn
+    callee = cands[0]
+    env = {}
+    for p, a in zip(callee["params"], call["args"]):
+        while isinstance(a, dict) and a.get("k") in ("cast", "materialize"):
+            a = a["e"]
+        if a.get("k") == "ref" and a.get("id") in lambdas:
+            a = lambdas[a["id"]]
+        env[p["name"]] = a
+    recv = call.get("recv")
+
+    def subst(n, env, recv):
+        if isinstance(n, list):
+            return [subst(x, env, recv) for x in n]
+        if not isinstance(n, dict):
+            return n
+        if n.get("k") == "ref" and n.get("dk") == "param" and n.get("name") in env:
+            return env[n["name"]]
+        if n.get("k") == "this" and recv is not None:
+            return recv
+        if n.get("k") == "lambda":
+            inner = {k: v for k, v in env.items() if k not in {p["name"] for p in n.get("params") or []}}
+            return dict(n, body=subst(n.get("body"), inner, recv))
+        out = {k: subst(v, env, recv) if isinstance(v, (dict, list)) else v for k, v in n.items()}
+        if out.get("k") == "call":
+            tgt = out.get("callee") if out.get("ck") == "indirect" else \
+                (out.get("recv") if out.get("ck") == "op" and out.get("op") == "()" else None)
+            while isinstance(tgt, dict) and tgt.get("k") == "cast":
+                tgt = tgt["e"]
+            if isinstance(tgt, dict) and tgt.get("k") == "lambda" and tgt.get("params") is not None:
+                lb = tgt.get("body", {}).get("s", [])
+                if len(lb) == 1 and lb[0].get("k") == "return" and lb[0].get("e") is not None and \
+                        len(tgt["params"]) == len(out.get("args", [])):
+                    lenv = {p["name"]: a for p, a in zip(tgt["params"], out["args"])}
+                    return subst(copy.deepcopy(lb[0]["e"]), lenv, None)
+        return out
+    new = dict(fn)
+    new["body"] = dict(body, s=pre + subst(copy.deepcopy(callee["body"]), env, recv).get("s", []))
+    new["inlined_from"] = callee["q"]
+    return inline_tail_delegate(new, F, depth + 1) if depth < 2 else new
